@@ -154,6 +154,38 @@ pub fn gen_core(src: &mut Src, _t: Tier) -> Case {
     mk(s.chars().map(|c| c as u32).collect(), Fl::parse(*src.pick(&["", "u", "v"])))
 }
 
+// ---- the documented resource limits are 65535 capture groups and 65535 loops: a valid pattern AT the limit compiles
+// (what happens above it is C07's business: Ok or Err, never a crash)
+fn limit_cases() -> Vec<Case> {
+    let mut out = vec![];
+    for n in [65534usize, 65535] {
+        for (unit, f) in [("()", ""), ("(a)", "u"), ("(?:a)?", ""), ("a*", "v"), ("(a)?", ""), ("(?=(a))", "u")] {
+            // (a)? uses one group and one loop per unit; the lookahead unit one group
+            out.push(Case { x: serde_json::json!({"unit": unit, "n": n}), flags: f.to_string(), ..Default::default() });
+        }
+    }
+    out
+}
+
+fn gen_limit(src: &mut Src, _t: Tier) -> Case {
+    let v = limit_cases();
+    v[(src.raw() as usize).min(v.len() - 1)].clone()
+}
+
+fn check_limit(case: &Case, _l: &mut Local) -> Verdict {
+    let unit = case.x["unit"].as_str().unwrap_or("()");
+    let n = case.x["n"].as_u64().unwrap_or(1) as usize;
+    let pat: Vec<u32> = unit.repeat(n).chars().map(|c| c as u32).collect();
+    regress::verif::set_fuel(u64::MAX);
+    let r = std::panic::catch_unwind(|| regress::Regex::from_unicode(pat.iter().copied(), Fl::parse(&case.flags).regress(false)).map(|_| ()));
+    match r {
+        Ok(Ok(())) => Verdict::Pass { nontrivial: true },
+        Ok(Err(e)) => Verdict::Fail(format!("{} x {} (flags \"{}\") is a valid pattern within the documented limits (65535 groups, 65535 loops) but is rejected: {}", unit, n, case.flags, e.text)),
+        Err(_) => Verdict::Fail(format!("{} x {} panicked", unit, n)),
+    }
+}
+
+pub static V_LIMIT: Variant = Variant { name: "at_documented_limits", choice_len: 1, gen: gen_limit, check: check_limit };
 pub static V_CORE: Variant = Variant { name: "exhaustive_token_triples", choice_len: 5, gen: gen_core, check };
 pub static V_SOUP: Variant = Variant { name: "token_soup", choice_len: 60, gen: gen_soup_case, check };
 pub static V_CROSS: Variant = Variant { name: "cross_mode", choice_len: 400, gen: gen_cross_mode, check };
@@ -162,13 +194,14 @@ pub static V_DUP: Variant = Variant { name: "duplicate_names", choice_len: 200, 
 pub static V_CUR: Variant = Variant { name: "curated_early_errors", choice_len: 1, gen: gen_curated, check };
 
 pub fn variants() -> Vec<&'static Variant> {
-    vec![&V_SOUP, &V_CROSS, &V_MUT, &V_DUP, &V_CUR, &V_CORE]
+    vec![&V_SOUP, &V_CROSS, &V_MUT, &V_DUP, &V_CUR, &V_CORE, &V_LIMIT]
 }
 
 pub fn run(ctx: &Ctx) -> i32 {
     esref::selftest::ensure();
     let cur: Vec<Case> = CURATED.iter().map(|(p, f)| mk(p.chars().map(|c| c as u32).collect(), Fl::parse(f))).collect();
     ctx.run_list(&V_CUR, &cur);
+    ctx.run_list(&V_LIMIT, &limit_cases());
     ctx.run_list(&V_CORE, &core_cases(ctx.tier));
     ctx.run_variant(&V_SOUP, ctx.scale(1_500_000, 20_000_000));
     ctx.run_variant(&V_CROSS, ctx.scale(300_000, 4_000_000));
@@ -176,7 +209,7 @@ pub fn run(ctx: &Ctx) -> i32 {
     ctx.run_variant(&V_DUP, ctx.scale(300_000, 4_000_000));
     ctx.finish(
         "exploration",
-        "(bounded-exhaustive) EVERY sequence of up to 3 tokens from a 64-token core (all group openers, brackets, quantifier shapes incl. malformed ones, anchors, the escape families incl. truncated ones, v-mode operators, \\q, punctuation) under -, u and v: 800k patterns (thorough: plus every quadruple over the first 40 tokens, 7.7M); token soup (1-10 fragments from ~230 syntax fragments: every bracket, quantifier shape, escape family, group opener incl. modifiers and names, v-mode operators and reserved punctuators, property names valid and invalid) x 24 flag sets; valid patterns printed for one mode and compiled under another; single-edit mutations of valid patterns; random placements of groups named a/b (legal and illegal duplicates) with \\k references; a curated list of ~150 early-error cases from the specification. Oracle: the reference model's parser (ES2025 grammar + Annex B + all static early errors), whose accept/reject agrees with V8 on 200k such strings (modifiers aside) and is re-checked against a frozen V8 corpus on every run. Both directions are judged. Non-trivial = at least two syntax-significant characters; classes report the accept/reject balance.",
+        "patterns of 65534 and 65535 groups / loops (the documented limits) must compile; (bounded-exhaustive) EVERY sequence of up to 3 tokens from a 64-token core (all group openers, brackets, quantifier shapes incl. malformed ones, anchors, the escape families incl. truncated ones, v-mode operators, \\q, punctuation) under -, u and v: 800k patterns (thorough: plus every quadruple over the first 40 tokens, 7.7M); token soup (1-10 fragments from ~230 syntax fragments: every bracket, quantifier shape, escape family, group opener incl. modifiers and names, v-mode operators and reserved punctuators, property names valid and invalid) x 24 flag sets; valid patterns printed for one mode and compiled under another; single-edit mutations of valid patterns; random placements of groups named a/b (legal and illegal duplicates) with \\k references; a curated list of ~150 early-error cases from the specification. Oracle: the reference model's parser (ES2025 grammar + Annex B + all static early errors), whose accept/reject agrees with V8 on 200k such strings (modifiers aside) and is re-checked against a frozen V8 corpus on every run. Both directions are judged. Non-trivial = at least two syntax-significant characters; classes report the accept/reject balance.",
         &["esref parser is the trusted base (validated against V8 for legacy/u/v; modifiers and duplicate names by spec reading)", "property names: the set V8/ICU 78 (Unicode 17) accepts, exported to oracle/v8_names.tsv"],
     )
 }
